@@ -23,6 +23,7 @@ package note
 //@   ensures ok ==> s == spec.intervalSize(d.Value, qual(d.Name))
 //@   ensures !ok ==> s == 0
 //@   decreases d.Value
+//@   recbound d.Value <= 8
 
 //@ func NewDegree returns (d, ok)
 //@   pure
@@ -90,3 +91,30 @@ package note
 //@   ensures err == nil ==> 0 <= noteSemi(r) && noteSemi(r) < 12
 //@   ensures err == nil ==> (spec.isNaturalPC(noteSemi(r)) ==> r.Accidental == Natural)
 //@   ensures err == nil ==> (!spec.isNaturalPC(noteSemi(r)) ==> r.Accidental == ite(precedeSharp, Sharp, Flat))
+
+// ---- notation (C10, C15): printing an interval and reading it back ----
+
+// accidental marks of the six notation classes: natural, b, #, bb, ##, bbb
+//@ define notationOf(cls) ite(cls == 1, "", ite(cls == 2, "b", ite(cls == 3, "#", ite(cls == 4, "bb", ite(cls == 5, "##", "bbb")))))
+
+//@ func CoerceDegreeName.String returns (r)
+//@   pure
+//@   requires cq(c) != 0
+//@   ensures r == notationOf(cq(c))
+
+//@ func Degree.String returns (r)
+//@   pure
+//@   requires qual(d.Name) != 0
+//@   ensures r == notationOf(spec.qualCoerce(qual(d.Name))) + spec.dec(d.Value)
+
+// ParseDegree never returns an invalid interval without an error
+//@ func ParseDegree returns (d, err)
+//@   pure
+//@   noprune
+//@   ensures err == nil ==> spec.validInterval(d.Value, qual(d.Name))
+
+//@ func lemmaC15RoundTrip returns (r, err)
+//@   enumerate name 0 8
+//@   inlines note.ParseDegree
+//@   requires spec.validInterval(value, qual(name)) && value < 18446744073709551616
+//@   ensures err == nil && r.Value == value && r.Name == name
